@@ -115,6 +115,8 @@ def main(argv=None):
             extra = dict(extra)
             from .checkpoints import FOR
             extra["trace"] = trace.report(getattr(mod, "CHECKPOINTS", FOR.get(a.prop.upper(), [])))
+            if os.environ.get("VMON_LINES_DIR"):
+                trace.dump(os.path.join(os.environ["VMON_LINES_DIR"], f"{a.prop.upper()}-{os.getpid()}.json"))
             trace.stop()
     except Exception:  # noqa: BLE001
         extra["trace_error"] = traceback.format_exc()
